@@ -228,10 +228,17 @@ func (f *File) Read(b []byte) (n int, err error) {
 }
 
 func (f *File) ReadAt(b []byte, off int64) (n int, err error) {
+	if off < 0 {
+		return 0, &os.PathError{Op: "readat", Path: f.fileData.name, Err: errors.New("negative offset")}
+	}
 	prev := atomic.LoadInt64(&f.at)
 	atomic.StoreInt64(&f.at, off)
 	n, err = f.Read(b)
 	atomic.StoreInt64(&f.at, prev)
+	if err == nil && n < len(b) {
+		// io.ReaderAt: a short read must be explained by an error
+		err = io.EOF
+	}
 	return
 }
 
